@@ -525,8 +525,9 @@ func c15RunSeq(o *c15Out, s uint32, natural bool, h []c15Ev) error {
 	for _, a := range w.anomaly {
 		o.violation("anomaly", a)
 	}
-	o.seq = append(o.seq, cTuple(cN(uint64(s)), cListInline(hin), cListInline(obs)))
-	c := map[string]interface{}{"start_counter": s, "history": c15Descs(h), "observed": desc}
+	fin := w.s.cli.VerifIDLast()
+	o.seq = append(o.seq, cTuple(cN(uint64(s)), cListInline(hin), cListInline(obs), cN(uint64(fin))))
+	c := map[string]interface{}{"start_counter": s, "history": c15Descs(h), "observed": desc, "counter_afterwards": fin}
 	o.m.Families["seq"] = append(o.m.Families["seq"], c)
 	o.starts[c15StartClass(s)]++
 	key := fmt.Sprint(s, c15Descs(h))
@@ -832,8 +833,9 @@ func c15RunBulk(o *c15Out, s uint32, g, per int, qos byte) error {
 	for _, a := range w.anomaly {
 		o.violation("anomaly", a)
 	}
-	o.bulk = append(o.bulk, cTuple(cN(uint64(s)), cN(uint64(n)), cBool(qos != 0), c15CoqRuns(runs)))
-	c := map[string]interface{}{"start_counter": s, "goroutines": g, "requests_each": per, "qos": qos,
+	fin := w.s.cli.VerifIDLast()
+	o.bulk = append(o.bulk, cTuple(cN(uint64(s)), cN(uint64(n)), cBool(qos != 0), c15CoqRuns(runs), cN(uint64(fin))))
+	c := map[string]interface{}{"start_counter": s, "goroutines": g, "requests_each": per, "qos": qos, "counter_afterwards": fin,
 		"identifiers_sorted_as_runs(first,length)": runs[:c15Min(len(runs), 12)], "runs": len(runs)}
 	o.m.Families["bulk"] = append(o.m.Families["bulk"], c)
 	o.starts[c15StartClass(s)]++
@@ -874,13 +876,39 @@ func c15RunCycle(o *c15Out, s uint32, n int) (bool, error) {
 	}
 	issued := 0
 	if stuck == "" {
-		for i := 0; i < n; i++ {
-			if err := cli.Publish(ctx, &mqtt.Message{Topic: "c", QoS: mqtt.QoS1, Payload: []byte{1}}); err != nil {
-				stuck = fmt.Sprintf("publish %d failed: %v", i+1, err)
-				break
+		// the publishes run on their own goroutine; a watchdog cuts the connection when no
+		// publish has completed for a whole waiting period (a request that never completes)
+		var progress int64
+		res := make(chan string, 1)
+		go func() {
+			for i := 0; i < n; i++ {
+				if err := cli.Publish(ctx, &mqtt.Message{Topic: "c", QoS: mqtt.QoS1, Payload: []byte{1}}); err != nil {
+					res <- fmt.Sprintf("publish %d did not complete: %v", i+1, err)
+					return
+				}
+				atomic.AddInt64(&progress, 1)
 			}
-			issued++
+			res <- ""
+		}()
+		last := int64(-1)
+	watch:
+		for {
+			select {
+			case stuck = <-res:
+				break watch
+			case <-time.After(c15WaitDur()):
+				now := atomic.LoadInt64(&progress)
+				if now == last {
+					atomic.AddInt32(&c15Expired, 1)
+					w.s.conn.Close() // releases the publish that hangs
+					stuck = <-res
+					stuck = fmt.Sprintf("no publish completed for a whole waiting period after %d publishes (%s)", now, stuck)
+					break watch
+				}
+				last = now
+			}
 		}
+		issued = int(atomic.LoadInt64(&progress))
 	}
 	w.mu.Lock()
 	ids := append([]uint16{}, w.cycleIDs...)
@@ -962,7 +990,8 @@ func runC15(cfg *runCfg) error {
 		g, per int
 		qos    byte
 	}
-	bulks := []bulkSpec{{2000, 1, 1}, {16, 1500, 0}, {1500, 1, 1}}
+	bulks := []bulkSpec{{2000, 1, 1}, {16, 1500, 0}, {1500, 1, 1}, {3000, 1, 1}, {64, 300, 0}, {3000, 1, 1},
+		{2500, 1, 1}, {16, 1500, 0}, {3000, 1, 1}, {3000, 1, 1}, {32, 700, 0}, {3000, 1, 1}}
 	cycles := 1
 	switch cfg.tier {
 	case "thorough":
@@ -975,8 +1004,8 @@ func runC15(cfg *runCfg) error {
 	case "search":
 		nSeq, nConc, maxLen = 400, 80, 40
 		bulks = nil
-		for i := 0; i < 8; i++ {
-			bulks = append(bulks, bulkSpec{3000, 1, 1}, bulkSpec{32, 1000, 0})
+		for i := 0; i < 16; i++ {
+			bulks = append(bulks, bulkSpec{3000, 1, 1}, bulkSpec{3000, 1, 1}, bulkSpec{32, 1000, 0})
 		}
 		cycles = 1
 	}
@@ -1048,8 +1077,10 @@ func runC15(cfg *runCfg) error {
 	// --- bulk ---
 	for i, b := range bulks {
 		s := c15PickStart(r)
-		if i%3 == 0 {
+		if i%3 == 0 || cfg.tier == "search" {
 			s = 0xFFFFFFFF - uint32(r.Intn(b.g*b.per)) // the 32-bit wrap falls inside the burst
+		} else if i%3 == 1 {
+			s = uint32(r.Intn(65536))<<16 | uint32(0xFFFF-r.Intn(b.g*b.per)) // a 16-bit wrap falls inside
 		}
 		if err := c15RunBulk(o, s, b.g, b.per, b.qos); err != nil {
 			return err
